@@ -584,6 +584,10 @@ End Bytes.
 
 (* ---------- the significant tokens of the result, for a reference tokenizer with the chunking
    property (the token-level clause of C14, relative to hypotheses about the lexer stack) ---------- *)
+Lemma concat_flat_map' {A B} (f : A -> list (list B)) l :
+  concat (flat_map f l) = concat (map (fun x => concat (f x)) l).
+Proof. induction l as [|x l IH]; [reflexivity|]. cbn. rewrite concat_app, IH. reflexivity. Qed.
+
 Section Tokens.
 Variable T : Type.
 Variable sigt : bytes -> option (list T).      (* the significant tokens of a text, if it lexes *)
@@ -593,7 +597,9 @@ Hypothesis chunking : forall a b ta tb,
 (* a newline at the very end adds no significant token *)
 Hypothesis final_nl : forall a ta, sigt a = Some ta -> sigt (a ++ [10]) = Some ta.
 Hypothesis sigt_nil : sigt [] = Some [].
-Hypothesis echo_faithful : forall ls q, parse_lines ls = Ok q -> concat (echo q) = concat ls.
+(* the echo of a lexed text has the text's significant tokens (quoted strings may be spelled
+   differently, with the same denotation: this is what C06 states) *)
+Hypothesis echo_tokens : forall ls q, parse_lines ls = Ok q -> sigt (concat (echo q)) = sigt (concat ls).
 Hypothesis file_lines_concat : forall c, concat (file_lines c) = c.
 
 Definition toks (x : bytes) : list T := match sigt x with Some t => t | None => [] end.
@@ -703,23 +709,31 @@ Lemma build_code_tokens fuel mp mc out :
                             ++ concat (map toks preamble_require) ++ toks mc
                      end).
 Proof.
-  intros H. destruct (build_code_bytes echo_faithful file_lines_concat _ _ _ _ H)
-    as (r & pk & tail & Hb & Ht & ->).
-  exists r, pk. split; [exact Hb|]. intros Hpp Hpr Hend Hpk Hmc.
-  assert (Hmain : forall x tx, sigt x = Some tx -> sigt (x ++ tail) = Some tx).
-  { intros x tx Hx. destruct Ht as [->| ->]; [rewrite app_nil_r; exact Hx | apply final_nl, Hx]. }
-  destruct pk as [|e0 pk0]; [apply Hmain, lexes_toks, Hmc|].
-  apply Hmain. remember (e0 :: pk0) as pk eqn:Epk. clear Epk Hb.
-  rewrite blocks_bytes.
-  replace (concat preamble_package ++ concat (flat_map block_chunks pk) ++ concat preamble_require ++ mc)
-    with (concat (preamble_package ++ flat_map block_chunks pk ++ preamble_require) ++ mc)
-    by (rewrite !concat_app, <- !app_assoc; reflexivity).
-  rewrite sigt_chunks; [| |exact Hmc].
-  - rewrite !map_app, !concat_app, <- !app_assoc, (blocks_toks pk Hpk). reflexivity.
-  - apply Forall_app. split; [|apply Forall_app; split].
-    + rewrite Forall_forall in *. intros l Hl. split; [right; apply preamble_package_nl, Hl | apply Hpp, Hl].
-    + apply blocks_chunks_ok; assumption.
-    + rewrite Forall_forall in *. intros l Hl. split; [right; apply preamble_require_nl, Hl | apply Hpr, Hl].
+  unfold ReqEmbed.build_code. intros H.
+  destruct (build_lua fuel mp mc) as [[r pk]|e] eqn:Hb; [|discriminate]. cbn [bind] in H.
+  unfold ReqEmbed.lua_section in H.
+  destruct (parse_lines (echo r)) as [r2|e]; [|discriminate]. cbn [bind] in H. injection H as <-.
+  exists r, pk. split; [reflexivity|]. intros Hpp Hpr Hend Hpk Hmc.
+  destruct (build_structure _ _ _ _ _ Hb) as (m & Hm & He & Hs).
+  pose proof (echo_tokens _ _ Hm) as Em. rewrite file_lines_concat in Em.
+  assert (Hmain : forall x tx, sigt x = Some tx ->
+            sigt (x ++ (if ends_with_nl (last (echo r) []) then [] else [10])) = Some tx).
+  { intros x tx Hx. destruct (ends_with_nl (last (echo r) [])); [rewrite app_nil_r; exact Hx | apply final_nl, Hx]. }
+  apply Hmain. destruct pk as [|e0 pk0].
+  - subst r. rewrite Em. apply lexes_toks, Hmc.
+  - rewrite (echo_tokens _ _ Hs). remember (e0 :: pk0) as pk eqn:Epk. clear Epk Hb Hs He.
+    assert (Hz : lexes (concat (echo m))) by (unfold lexes; rewrite Em; exact Hmc).
+    assert (Tz : toks (concat (echo m)) = toks mc) by (unfold toks; rewrite Em; reflexivity).
+    replace (concat (preamble_package ++ flat_map block pk ++ preamble_require ++ echo m))
+      with (concat (preamble_package ++ flat_map block_chunks pk ++ preamble_require) ++ concat (echo m)).
+    2:{ rewrite !concat_app, <- !app_assoc. f_equal. f_equal.
+        rewrite <- blocks_bytes. symmetry. apply concat_flat_map'. }
+    rewrite sigt_chunks; [| |exact Hz].
+    + rewrite !map_app, !concat_app, <- !app_assoc, (blocks_toks pk Hpk), Tz. reflexivity.
+    + apply Forall_app. split; [|apply Forall_app; split].
+      * rewrite Forall_forall in *. intros l Hl. split; [right; apply preamble_package_nl, Hl | apply Hpp, Hl].
+      * apply blocks_chunks_ok; assumption.
+      * rewrite Forall_forall in *. intros l Hl. split; [right; apply preamble_require_nl, Hl | apply Hpr, Hl].
 Qed.
 
 (* the tokens of one embedded package, for a stripping step that acts on the significant tokens as
@@ -738,9 +752,10 @@ Proof.
   intros (rpath & gl & qpath & Hl). exists rpath, gl.
   unfold ReqEmbed.load in Hl. destruct (find rpath (fst e)) as [[path content]|]; [|discriminate].
   destruct (parse_lines (file_lines content)) as [q0|e0] eqn:Hq; [|discriminate]. cbn [bind] in Hl.
-  pose proof (echo_faithful _ _ Hq) as E0. rewrite file_lines_concat in E0.
+  pose proof (echo_tokens _ _ Hq) as E0. rewrite file_lines_concat in E0.
   exists path, content. destruct gl.
-  - cbn [bind] in Hl. injection Hl as <- <-. split; [reflexivity|]. intros Hc. rewrite E0. split; [exact Hc | reflexivity].
+  - cbn [bind] in Hl. injection Hl as <- <-. split; [reflexivity|]. intros Hc.
+    split; [unfold lexes; rewrite E0; exact Hc | unfold toks; rewrite E0; reflexivity].
   - destruct (strip q0) as [q1|e1] eqn:Hs; [|discriminate]. cbn [bind] in Hl. injection Hl as <- <-.
     split; [reflexivity|]. intros Hc. pose proof (strip_tokens _ _ Hs) as H. rewrite E0 in H.
     rewrite (lexes_toks _ Hc) in H. cbn [option_map] in H.
